@@ -52,9 +52,9 @@ StateChecks ==
                 rb == <<Tr.orders[1].st[a][1], Tr.orders[1].st[a][2]>>
                 got == Tr.hon[a][XIdx(x)]
                 adj == <<Tr.adj[a][XIdx(x)][1], Tr.adj[a][XIdx(x)][2]>>
-            IN /\ Check((s.has /\ ConflictFree(p2, s, a)) => (InReported(x, rb, s) <=> got = x),
+            IN /\ Check((s.has /\ ConflictFree(p2, s, a) /\ ~ZeroUndetermined(x, s)) => (InReported(x, rb, s) <=> got = x),
                         "C04.ReportedRangeIsHonoured", <<"actor", a, "x", x, "reported", rb, "target", got>>)
-               /\ Check(s.has => (InReported(x, rb, s) <=> adj = <<x, x>>),
+               /\ Check((s.has /\ ~ZeroUndetermined(x, s)) => (InReported(x, rb, s) <=> adj = <<x, x>>),
                         "C04.AdjustToBoundsAgrees", <<"actor", a, "x", x, "reported", rb, "adjusted", adj>>)
                /\ Check(adj = AdjustToBounds(x, rb, s), "C04.AdjustToBoundsConform",
                         <<"actor", a, "x", x, "got", adj>>)
